@@ -828,3 +828,99 @@ Proof.
   - eapply Forall_impl; [|exact Hl]. intros x Hx. eapply elem_ok_label, Hx.
   - eapply Forall_impl; [|exact Hl]. intros x Hx. now apply elem_ok_raw.
 Qed.
+
+(* ================= H. the conditions, decided (for concrete layouts: vm_compute) ================= *)
+Definition no_ltb (t : str) : bool := forallb (fun c => negb (N.eqb c LT)) t.
+Lemma no_ltb_ok t : no_ltb t = true -> no_lt t.
+Proof. unfold no_ltb, no_lt. rewrite forallb_forall, Forall_forall. intros H c Hc E. specialize (H c Hc). subst c. discriminate. Qed.
+Definition words_fitb (w : Z) (t : str) : bool := forallb (fun c => Z.of_nat (length c) <=? w) (chunks (munge t)).
+Lemma words_fitb_ok w t : words_fitb w t = true -> words_fit w t.
+Proof. unfold words_fitb, words_fit. rewrite forallb_forall, Forall_forall. intros H c Hc. apply Z.leb_le. now apply H. Qed.
+
+Fixpoint nhb_from (st : lexst) (u : str) : bool :=
+  match u with
+  | [] => true
+  | c :: r => (if N.eqb c HY then match l_cand st with CName _ _ => false | _ => true end else true) && nhb_from (lex_step st c) r
+  end.
+Definition nhb (u : str) : bool := nhb_from lex_init u.
+Lemma nhb_from_ok : forall u X0, nhb_from (fold_left lex_step X0 lex_init) u = true ->
+  forall X Y, u = X ++ HY :: Y -> match l_cand (fold_left lex_step (X0 ++ X) lex_init) with CName _ _ => False | _ => True end.
+Proof.
+  induction u as [|c u IH]; intros X0 H X Y E; [destruct X; discriminate|]. cbn [nhb_from] in H. apply andb_prop in H as [H1 H2].
+  destruct X as [|x X'].
+  - cbn [app] in E. injection E as -> ->. rewrite app_nil_r. change (N.eqb HY HY) with true in H1. cbv iota in H1.
+    destruct (l_cand _); [exact I|exact I|exact I|discriminate].
+  - cbn [app] in E. injection E as -> ->. replace (X0 ++ x :: X') with ((X0 ++ [x]) ++ X') by now rewrite <- app_assoc.
+    apply (IH (X0 ++ [x])) with (Y := Y); [|reflexivity]. now rewrite fold_left_app.
+Qed.
+Lemma nhb_ok u : nhb u = true -> no_hyphen_in_tags u.
+Proof. intros H X Y E. exact (nhb_from_ok u [] H X Y E). Qed.
+
+(* balanced: every closing tag closes a style opened in the same text, nothing stays open; no unknown colour *)
+Fixpoint bal (sty : styles) (segs : list (str * tag)) (pushed : list pstyle) : bool :=
+  match segs with
+  | [] => match pushed with [] => true | _ => false end
+  | (pre, Tag raw cl nm) :: r =>
+    if ends_with_bsl pre then bal sty r pushed
+    else if cl && (match nm with [] => true | _ => false end)
+         then match pushed with [] => false | _ => bal sty r (removelast pushed) end
+    else match resolve sty (py_lower nm) with
+         | Err _ => false
+         | Ok None => bal sty r pushed
+         | Ok (Some st) =>
+           if cl then match cut_rev st (rev pushed) with Some r' => bal sty r (rev r') | None => false end
+           else bal sty r (pushed ++ [st])
+         end
+  end.
+Definition neutralb (sty : styles) (u : str) : bool := bal sty (l_done (fold_left lex_step u lex_init)) [].
+Lemma cut_rev_app st : forall a b r, cut_rev st a = Some r -> cut_rev st (a ++ b) = Some (r ++ b).
+Proof.
+  induction a as [|x a IH]; intros b r H; [discriminate|]. cbn [cut_rev app] in *.
+  destruct (pstyle_eqb st x); [now injection H as <-|now apply IH].
+Qed.
+Lemma bal_ok sty : forall segs pushed first, bal sty segs pushed = true ->
+  forall sk, segs_stack sty false first segs (sk ++ pushed) = Ok sk.
+Proof.
+  induction segs as [|[pre [raw cl nm]] r IH]; intros pushed first H sk; cbn [bal segs_stack] in *.
+  - destruct pushed; [now rewrite app_nil_r|discriminate].
+  - rewrite esc_of_false. unfold tag_stack. destruct (ends_with_bsl pre); cbn [bind]; [now apply IH|].
+    destruct (cl && match nm with [] => true | _ => false end).
+    { destruct pushed as [|p0 pushed']; [discriminate|]. cbn [bind]. unfold pop_any.
+      rewrite removelast_app by discriminate. now apply IH. }
+    destruct (resolve sty (py_lower nm)) as [[st|]|k]; cbn [bind]; [| |discriminate].
+    + destruct cl.
+      * destruct (cut_rev st (rev pushed)) as [r'|] eqn:Ec; [|discriminate]. unfold pop_style.
+        destruct (sk ++ pushed) as [|z zs] eqn:Ez.
+        { destruct pushed; [cbn in Ec; discriminate|destruct sk; discriminate]. }
+        rewrite <- Ez, rev_app_distr, (cut_rev_app st _ (rev sk) _ Ec), rev_app_distr, rev_involutive. cbn [bind]. now apply IH.
+      * rewrite <- app_assoc. now apply IH.
+    + now apply IH.
+Qed.
+Lemma neutralb_ok sty u : neutralb sty u = true -> neutral sty false u.
+Proof. intros H sk. unfold effect. rewrite <- (app_nil_r sk) at 1. now apply bal_ok. Qed.
+
+Definition text_okb (sty : styles) (w : Z) (t : str) : bool :=
+  no_ltb t || (words_fitb w t && nhb (munge t) && neutralb sty (munge t)).
+Lemma text_okb_ok sty w t : text_okb sty w t = true -> text_ok sty w t.
+Proof.
+  unfold text_okb. intros H. apply orb_prop in H as [H|H]; [left; now apply no_ltb_ok|right].
+  apply andb_prop in H as [H H3]. apply andb_prop in H as [H1 H2].
+  split; [now apply words_fitb_ok|]. split; [now apply nhb_ok|now apply neutralb_ok].
+Qed.
+Definition elem_okb (sty : styles) (W off : Z) (ind : nat) (e : elem) : bool :=
+  match e with
+  | EEmpty => true
+  | EPara t => text_okb sty (wrap_width W off ind 0 e) t
+  | ELab label text padding aligned =>
+    neutralb sty label && negb (ends_with_bsl label) && Nat.leb 1 padding &&
+    text_okb sty (wrap_width W off ind (vis_of sty label) e) text
+  end.
+Definition layout_okb (sty : styles) (W : Z) (l : layout) : bool :=
+  forallb (fun x => elem_okb sty W (align_vis sty l 0) (fst x) (snd x)) l.
+Lemma layout_okb_ok sty W l : layout_okb sty W l = true -> layout_ok sty W l.
+Proof.
+  unfold layout_okb, layout_ok. rewrite forallb_forall, Forall_forall. intros H x Hx. specialize (H x Hx).
+  destruct (snd x) as [t|label text padding aligned|]; cbn [elem_okb elem_ok] in *; [now apply text_okb_ok| |exact I].
+  apply andb_prop in H as [H H4]. apply andb_prop in H as [H H3]. apply andb_prop in H as [H1 H2].
+  split; [now apply neutralb_ok|]. split; [now apply negb_true_iff in H2|]. split; [now apply Nat.leb_le|now apply text_okb_ok].
+Qed.
